@@ -138,7 +138,7 @@ def run_threads(m, sc, log=None):
         for t in range(1, T + 1):
             for r in range(1, K + 1):
                 c = Cmp('ule', sch.c[t][r - 1], sch.c[t][r], PW)
-                if c is not True: m.pruner.s.add(__import__('xsym.z3b', fromlist=['conv']).conv(c, 0))
+                m.pruner.add_base(c)
     cap0 = m.hard_loop_cap; m.hard_loop_cap = getattr(sc, 'mt_loop_cap', 200)
     m.do_restrict = True
     scap0 = m.sym_loop_cap; m.sym_loop_cap = getattr(sc, 'mt_sym_loop_cap', 24)
